@@ -14,6 +14,9 @@ import traceback
 
 VERIF = os.path.dirname(os.path.dirname(os.path.abspath(__file__)))
 KF_PATH = os.path.join(VERIF, "known_findings.json")
+# evidence/replays of runs against a scratch copy (VERIF_REPO) must not overwrite the real ones
+_SCRATCH = os.environ.get("VERIF_REPO", "/repo") not in ("/repo", "")
+OUT = os.environ.get("VERIF_OUT") or ("/dev/shm/verif_out" if _SCRATCH else VERIF)
 
 
 def load_known():
@@ -267,8 +270,8 @@ def replay_known(prop, units_by_name):
 
 def decide(prop, tier, seed, units, results, wall):
     from . import loader
-    os.makedirs(os.path.join(VERIF, "evidence"), exist_ok=True)
-    rdir = os.path.join(VERIF, "replays", prop)
+    os.makedirs(os.path.join(OUT, "evidence"), exist_ok=True)
+    rdir = os.path.join(OUT, "replays", prop)
     lines = []
     violations = []
     undecided = []
@@ -361,10 +364,10 @@ def decide(prop, tier, seed, units, results, wall):
                        "inputs": v["inputs"], "confirmed_on_real_code": v["confirmed"], "observed": v["observed"],
                        "source": v["source"], "verifier_output": v.get("model_info"),
                        "replay_status": v.get("replay_status"), "replay_error": v.get("replay_error"),
-                       "how": "./check %s --replay %s" % (prop, os.path.relpath(fn, VERIF))}, f, indent=1, default=str)
+                       "how": "./check %s --replay %s" % (prop, os.path.relpath(fn, VERIF) if OUT == VERIF else fn)}, f, indent=1, default=str)
         suffix = "" if v["confirmed"] else " no-failing-input-found"
         lines.append("VIOLATION property=%s replay=%s obligation=%s::%s%s" % (
-            prop, os.path.relpath(fn, VERIF), v["unit"], v["obligation"], suffix))
+            prop, os.path.relpath(fn, VERIF) if OUT == VERIF else fn, v["unit"], v["obligation"], suffix))
     if crashes:
         code = 3
     elif nv:
@@ -382,7 +385,7 @@ def decide(prop, tier, seed, units, results, wall):
         sys.stderr.write("---- %s\n%s\n" % (tag, err))
     ev = build_evidence(prop, tier, seed, units, covered, n_ob, n_dis, by_backend, solver_s, max_q, samples, distinct,
                         proved_units, bounded_units, sample_obs, subs, kconfirmed, nv, wall, undecided)
-    with open(os.path.join(VERIF, "evidence", "%s.json" % prop), "w") as f:
+    with open(os.path.join(OUT, "evidence", "%s.json" % prop), "w") as f:
         json.dump(ev, f, indent=1)
     lines.append("%s tier=%s units=%d obligations=%d discharged=%d samples=%d violations=%d undecided=%d exit=%d (%.1fs)" % (
         prop, tier, len(results), n_ob, n_dis, samples, nv, len(undecided), code, wall))
